@@ -11,6 +11,7 @@
    is part of the statement; all others hold for every size. *)
 From Coq Require Import ZArith QArith List Bool Arith Lia.
 Import ListNotations.
+From Inf Require Import proofs.PermGlynnGenP.
 From Inf Require Import model.PermM spec.PermS proofs.PermSpecP proofs.PermP proofs.PermQuickP
   proofs.PermGlynnP proofs.PermGlynn7P proofs.PermIdleP proofs.PermTieP proofs.PermBoundAP proofs.PermBoundBP proofs.PermBoundCP.
 Open Scope Q_scope.
@@ -238,7 +239,14 @@ Theorem C02_fast_glynn_eq_perm_le7_bounded : forall n M, (1 <= n <= 7)%nat -> sq
 Proof. exact fast_glynn_eq_perm_le7. Qed.
 Print Assumptions C02_fast_glynn_eq_perm_le7_bounded.
 
-(* Glynn's formula as the plain sum over sign vectors, n <= 5 *)
+(* Glynn's formula as the plain sum over sign vectors equals the permanent for EVERY size
+   (proofs/PermGlynnGenP.v: induction on the number of sign variables over products of affine
+   forms, telescoping the difference of the two products obtained for delta_0 = +1/-1) *)
+Theorem C02_glynn_plain_eq_perm : forall n M, glynn_plain n M == perm n M.
+Proof. exact glynn_plain_eq_perm. Qed.
+Print Assumptions C02_glynn_plain_eq_perm.
+
+(* (the earlier bounded version, by field on symbolic entries, n <= 5) *)
 Theorem C02_glynn_plain_eq_perm_le5_bounded : forall n M, (n <= 5)%nat -> glynn_plain n M == perm n M.
 Proof. exact glynn_plain_eq_perm_le5. Qed.
 Print Assumptions C02_glynn_plain_eq_perm_le5_bounded.
